@@ -21,6 +21,10 @@ THEOREMS = [
     "MoreExec.Throttle.C07_no_idle_capacity",
     "MoreExec.Throttle.C07_count_fallback",
     "MoreExec.Throttle.C07_blocking_guard_facts",
+    "MoreExec.Throttle.C07_block_test_spec",
+    "MoreExec.Throttle.C07_admission_notifies_iff_popped",
+    "MoreExec.BlockProto.C07_blocked_only_while_full",
+    "MoreExec.BlockProto.C07_room_wakes_all",
     "MoreExec.Throttle.C07_admission_kernel",
 ]
 KERNELS = ["K4"]
@@ -43,7 +47,37 @@ def gen_scenarios(seed, tier):
         d = sc.gen_stack(rng, i, kinds=["throttle"], max_layers=1, ops=("submit", "cancel", "sleep", "result"),
                          bases=("simpool1", "simpool2", "simpool2", "simsync"), tail=(40.0,), shutdown_p=0.0)
         d["layers"] = [sc.gen_layer(rng, "throttle")]
+        if i % 5 == 4:
+            d = gen_blocking(rng, i, d)
         yield d
+
+
+def gen_blocking(rng, i, d):
+    """blocking mode with a small static count and more submissions than the queue holds, from 1-3 threads: submitters park in
+    `_block_until_ready` and must be released as soon as the hand-over thread (or a cancel) makes room"""
+    d = dict(d)
+    d["layers"] = [["throttle", {"count": rng.choice([1, 1, 2]), "block": True}]]
+    clients = []
+    k = 0
+    for c in range(rng.choice([1, 2, 2, 3])):
+        ops = []
+        for _ in range(rng.randint(2, 4)):
+            beh = []
+            if rng.random() < 0.5:
+                beh.append(["sleep", rng.choice([0.5, 1.0, 2.0])])
+            beh.append(["ret", k])
+            ops.append(["submit", "k%d" % k, [beh]])
+            k += 1
+            r = rng.random()
+            if r < 0.15 and k > 1:
+                ops.append(["cancel", "k%d" % rng.randrange(k)])
+            elif r < 0.3:
+                ops.append(["sleep", rng.choice([0.5, 1.0])])
+        clients.append(ops)
+    d["clients"] = clients
+    d["base"] = rng.choice(["simpool1", "simpool2", "simsync"])
+    d["family"] = "blocking"
+    return d
 
 
 def static_count(desc):
@@ -75,6 +109,7 @@ def monitors(s, ctx, desc):
     handed = []
     fut_key = {}
     queued = set()
+    blocked_subs = {}       # submitter tid -> log index of its park inside `_block_until_ready`
     in_ctor = False
     dres, opened = {}, {}
     for i, e in enumerate(s.log):
@@ -123,6 +158,19 @@ def monitors(s, ctx, desc):
             inflight.discard(e[2])
         elif k == "dcancel>" and e[2] in inflight and dres.get(i) is True:
             inflight.discard(e[2])      # the delegate future is cancelled (done) before its callbacks run inside cancel()
+        elif k == "park" and t != worker and e[2] in ("event", "cond") and len(e) > 4 and e[4] == 30.0:
+            # a submitter parking in `_block_until_ready` (the only 30 s wait a non-worker thread makes)
+            blocked_subs[t] = i
+        elif k in ("woke", "acq", "call", "ret") and t in blocked_subs:
+            blocked_subs.pop(t, None)
+        elif k == "idle_jump" and not dynamic and blocked_subs and isinstance(cnt, int):
+            # "in blocking mode submit() ... blocks only while the queue already holds count entries": virtual time is about to
+            # pass (every thread is blocked) with a submitter asleep although the queue has room
+            q = [x for x in submitted if x in queued]
+            if len(q) < cnt:
+                hits.append(hit("C07/blocked-with-room", "time passes (to t=%s) with submit() of thread(s) %r asleep in blocking mode while "
+                                "the queue holds %d < count=%d entries (log %d)" % (e[2], sorted(blocked_subs), len(q), cnt, i)))
+                break
         elif k == "park" and t == worker:
             wparked = (e[2] == "event")
         elif k == "woke" and t == worker:
@@ -170,6 +218,8 @@ def run_one(desc):
     else:
         try:
             blocks.append(proj.project(s.log, desc))
+            if desc["layers"][0][1].get("block"):
+                blocks.append(proj.project_block(s.log, desc))
         except proj.Ambiguous as e:
             verd.append("INCONCLUSIVE 0 %s" % e)
         except proj.ProjError as e:
